@@ -706,6 +706,34 @@ def run(chk):
     if not n_w:
         raise core.AnalysisBroken("UDQASTNode: no method updates the sign member")
 
+    # ---- C17.hasget: a value is fetched from the table that was asked whether it has it
+    r_hg = chk.rule("C17.hasget", "UDQContext (where an expression reads quantities - UDQ values of the current pass from UDQState, everything else from SummaryState): wherever `obj.has_K(args)` guards `obj.get_K'(args')` on the same object, K' is K (well / group / segment / plain) and the arguments of the test are among those of the fetch - the well and group paths are parallel code, and asking the well table for a group quantity reports every group UDQ as undefined", floor=6)
+    cx = chk.facts(["opm/input/eclipse/Schedule/UDQ/UDQContext.cpp"])
+    for f in cx.fns:
+        if not f.get("body") or not f["file"].endswith("UDQContext.cpp"):
+            continue
+        for iff in [n for n in walk(f["body"]) if n["k"] == "If" and isinstance(n.get("cond"), dict)]:
+            c = strip(iff["cond"])
+            neg = False
+            while c.get("k") == "Un" and c.get("op") == "!" and c.get("c"):
+                c = strip(c["c"][0])
+                neg = not neg
+            if c.get("k") != "MCall" or not (c.get("m") or "").startswith("has") or not isinstance(c.get("obj"), dict):
+                continue
+            branch = iff.get("else") if neg else iff["then"]
+            if branch is None:
+                continue
+            obj = show(strip(c["obj"]))
+            kind = c["m"][3:].lstrip("_")
+            hargs = [show(a_) for a_ in c.get("a") or [] if a_.get("k") != "DefArg"]
+            for g in [x for x in walk(branch) if x["k"] == "MCall" and (x.get("m") or "").startswith("get") and isinstance(x.get("obj"), dict) and show(strip(x["obj"])) == obj]:
+                gkind = g["m"][3:].lstrip("_")
+                gargs = [show(a_) for a_ in g.get("a") or [] if a_.get("k") != "DefArg"]
+                key = "%s:%s.%s@%d" % (f["n"], obj.replace("this.", ""), g["m"], g["l"])
+                chk.instance(r_hg, key, sample=dict(function=f["q"], test="%s.%s(%s)" % (obj, c["m"], ", ".join(hargs)), fetch="%s.%s(%s)" % (obj, g["m"], ", ".join(gargs))))
+                if gkind != kind or not set(hargs) <= set(gargs):
+                    chk.violation(r_hg, key, "%s: `%s.%s(%s)` is fetched under the test `%s.%s(%s)`: the test asks another table (or about other arguments) than the fetch reads, so the quantity is reported undefined although it is there (or fetched although it is not)" % (f["q"], obj, g["m"], ", ".join(gargs), obj, c["m"], ", ".join(hargs)), f["file"], iff["l"])
+
     # ---- C17.assignorder: the ASSIGN history of a quantity, latest record last
     r_ao = chk.rule("C17.assignorder", "UDQAssign keeps the ASSIGN records of one quantity in input order: records are only appended (emplace_back / push_back); every evaluation that replays them walks `records` from first to last, so a later ASSIGN overwrites an earlier one; where a single record stands for the whole history - the value of a field/scalar quantity, the report step of the assignment - it is the LAST one (records.back())", floor=8)
     ax = chk.facts(["opm/input/eclipse/Schedule/UDQ/UDQAssign.cpp"])
